@@ -500,6 +500,9 @@ impl Prop for C03 {
                 });
                 if reopened && !case.alg.is_yens() {
                     o.fail("C03/reopened-vertex/stale-child-state", f.detail);
+                } else if case.alg.is_yens() {
+                    // one root cause (spur search restarts from the initial state), many symptoms
+                    o.fail("C03/yens/state-or-cost-not-accumulated-along-route", json!({"symptom": f.signature, "detail": f.detail}));
                 } else {
                     o.fail(f.signature, f.detail);
                 }
